@@ -143,7 +143,7 @@ pub struct WorldOpts {
     /// allow batches spanning several scenes / consumer variants
     pub batches: bool,
     pub rotation: bool,
-    pub constraints: u8, // 0 never, 1 sometimes
+    pub constraints: u8, // 0 never, 1 sometimes, 2 mostly
     pub features: bool,
     /// assignment stress: crossing / crowded objects
     pub stress: bool,
@@ -193,7 +193,8 @@ fn gen_cfg(r: &mut Rng, o: &WorldOpts) -> TrkCfg {
     } else {
         PosMetric::Maha
     };
-    let constraints = if o.constraints > 0 && r.chance(1, 3) {
+    // level 1: a third of the cases carry a table, level 2 (C20's own world): five in six
+    let constraints = if o.constraints > 0 && r.chance(if o.constraints >= 2 { 5 } else { 2 }, 6) {
         let n = r.range(1, 4);
         Some(
             (0..n)
